@@ -165,9 +165,16 @@ def _execute(obs, case, plan, info):
     scol, dcol = ex["stock_col"] % scols, ex["dil_col"] % dcols
     s_init = [0.0] * scols
     s_init[scol] = info["v_stock"] + 1000.0
+    # every third execution (whole-number pipetting steps only): the stock reservoir holds exactly v_stock above a min_volume of 0
+    exact_stock = (R + 2 * C) % 3 == 0 and float(ex["M"]) == int(ex["M"]) and info["v_stock"] > 0 and not ex.get("shared")
+    smin = 500.0
+    if exact_stock:
+        s_init[scol] = float(info["v_stock"])
+        smin = 0.0
+        obs.cls("executed:stock-used-up")
     d_init = [0.0] * dcols
     d_init[dcol] = max(info["v_dil"], 0) + 1000.0
-    stock = robotools.Trough("Stocks", ex["stock_vrows"], scols, min_volume=500.0, max_volume=1e9, initial_volumes=s_init, column_names=[stock_name if i == scol else None for i in range(scols)])
+    stock = robotools.Trough("Stocks", ex["stock_vrows"], scols, min_volume=smin, max_volume=1e9, initial_volumes=s_init, column_names=[stock_name if i == scol else None for i in range(scols)])
     diluent = robotools.Trough("Diluents", ex["dil_vrows"], dcols, min_volume=500.0, max_volume=1e9, initial_volumes=d_init, column_names=[dil_name if i == dcol else None for i in range(dcols)])
     dcol_arg = dcol
     if ex.get("shared"):
